@@ -382,7 +382,8 @@ def check_write_history(ck, bname, pdx):
         trees[n] = t
         c = t.find("DIAG-LAYER-CONTAINER")
         if c is not None:
-            ren[c.findtext("SHORT-NAME")] = c.findtext("SHORT-NAME") + "_h"
+            # (a leading underscore is legal in an ODX short name; the document is then written as "_<name>.odx-d")
+            ren[c.findtext("SHORT-NAME")] = "_" + c.findtext("SHORT-NAME") + "_h"
     if not ren:
         return
     d = os.path.join(SCRATCH, "hist")
@@ -643,6 +644,24 @@ def probes(ck):
             report(ck, {"parent-ref-docref-added"}, f"PARENT-REF without DOCREF: {err or d}", {"probe": "parent-docref"})
     except Exception as e:  # noqa
         ck.note_broken(f"probe parent-docref: {type(e).__name__}: {e}")
+    # 2b. a PARENT-REF which names its parent by DOCREF=<layer> DOCTYPE="LAYER": whatever form the writer gives the
+    # reference, the written PDX loads and the ECU variant still inherits from the same layer
+    k2b = k2.replace('<PARENT-REF ID-REF="A" xsi:type', '<PARENT-REF ID-REF="A" DOCREF="A" DOCTYPE="LAYER" xsi:type')
+    try:
+        db = hc.load_docs([k2b])
+        ck.count(("probe", "parent-docref-layer"))
+        db2, err, info = roundtrip(db, "probe")
+        par = None
+        if not err:
+            v2 = [dl for dl in db2.diag_layers if dl.short_name == "V"][0]
+            par = [pr.layer.short_name for pr in v2.diag_layer_raw.parent_refs]
+        if err or par != ["A"]:
+            ck.violation(f"PARENT-REF with DOCREF to the parent layer (DOCTYPE LAYER): after writing and loading {err or par} {info if err else ''}",
+                         {"probe": "parent-docref-layer", "document": k2b})
+        elif db_diff(db, db2):
+            report(ck, {"parent-ref-docref-added"}, f"PARENT-REF with DOCTYPE LAYER: {db_diff(db, db2)}", {"probe": "parent-docref-layer"})
+    except Exception as e:  # noqa
+        ck.note_broken(f"probe parent-docref-layer: {type(e).__name__}: {e}")
     # 3. diagnostic variables: the template which writes them has never worked
     try:
         db = hc.load_docs([open(os.path.join(os.path.dirname(os.path.abspath(__file__)), "c11_diagvar.xml")).read()])
